@@ -119,6 +119,30 @@ def rotate_two_files(k: int) -> bool:
     return ok and writes == ["write f1.yaml", "write f2.yaml"] and (("f2.yaml.bak" in fs.files) == backup)
 
 
+def rotate_twins(k: int) -> bool:
+    """Distinct collections with EQUAL content (copy-pasted blocks holding the same ciphertext) are each rotated."""
+    k = realize(k)
+    pa, k = k % 2, k // 2            # plaintext of the first block's secret
+    pb, k = k % 2, k // 2            # plaintext of the second block's secret (equal plaintext => equal ciphertext)
+    as_list, k = k % 2, k // 2       # blocks are hashes / lists
+    backup = bool(k % 2)
+    plain = ["pw", "other"]
+
+    def block(pi):
+        sec = PlainScalarString(enc("OLD", plain[pi]))
+        return cseq("u", sec) if as_list else cmap(("user", "u"), ("password", sec))
+    data = cmap(("staging", cmap(("db", block(pa)))), ("production", cmap(("db", block(pb)))), ("z", 5))
+    fs = FakeFS({"f.yaml": b"ORIGINAL"})
+    code, failed = _rotate_main(fs, data, backup)
+    where = 1 if as_list else "password"
+    got = [str(data["staging"]["db"][where]), str(data["production"]["db"][where])]
+    note(plaintexts=[plain[pa], plain[pb]], blocks="lists" if as_list else "hashes", exit_status=code, after=got, ops=fs.log)
+    if failed or code != 0:
+        return False
+    return got == [enc("NEW", plain[pa]), enc("NEW", plain[pb])] and data["z"] == 5 \
+        and data["staging"]["db"] is not data["production"]["db"]
+
+
 def shards(tier, seed):
     out = []
     n = 4 if tier == "quick" else 6
@@ -130,6 +154,10 @@ def shards(tier, seed):
     out.append(shard(PID, "rotate/two_files", "harness.c19", "rotate_two_files(k)", [("k", "int")], ["0 <= k < 8"],
                      family="rotate", budget=900, kind="S",
                      desc="two files in one run, anchored secrets under the same / different anchor names"))
+    out.append(shard(PID, "rotate/twins", "harness.c19", "rotate_twins(k)", [("k", "int")], ["0 <= k < 16"],
+                     family="rotate", budget=900, kind="S",
+                     desc="two distinct hashes / lists with equal or different content, each holding a secret (equal plaintexts give "
+                          "equal ciphertext): every one is rotated"))
     total = 2 * 2 * 2 * 2 * 3 * 3
     step = 24
     for lo in range(0, total, step):
